@@ -3,7 +3,7 @@
 From Coq Require Import List NArith ZArith Bool.
 From Coq.Strings Require Import Byte.
 From MS Require Import Base.Bytes Base.Outcome Base.Prog Mp4.Header Mp4.Box Mp4.San Mp4.Spec Mp4.LoopProofs
-  Mp4.LoopProofsSpec Mp4.LoopProofsAccept Mp4.LoopProofsConfig.
+  Mp4.LoopProofsSpec Mp4.LoopProofsAccept Mp4.LoopProofsConfig Mp4.SpliceSpec.
 Import ListNotations.
 Open Scope N_scope.
 
@@ -60,3 +60,23 @@ Example ex_cumulative :
   span_of (san None) = Some (84, 18) /\ span_of (san (Some 18)) = Some (84, 18) /\ is_ok (san (Some 7)) = false /\
   is_ok (san (Some 19)) = false.
 Proof. vm_compute. repeat split; reflexivity. Qed.
+
+(* C02_fixpoint / C01_toplevel: the metadata of ex_rewrite, spliced with the media span, is accepted again with no
+   metadata; the stco entries 31, 40 (media at 20) became 95, 104 (media at 84): delta = 84 - 20 = 64 *)
+Example ex_fixpoint :
+  let inp := input_of_bytes ex_rewrite in
+  match mp4_sanitize cfg0 false U64MAX' inp 20 with
+  | Ok {| o_metadata := Some (md, pad); o_data := sp |} =>
+      let J := splice md pad inp (s_off sp) (s_len sp) in
+      (blen md + pad =? 84) && (s_off sp =? 20) &&
+      match mp4_sanitize cfg0 true U64MAX' J 20 with
+      | Ok {| o_metadata := None; o_data := sp2 |} => (s_off sp2 =? 84) && (s_len sp2 =? s_len sp)
+      | _ => false
+      end &&
+      match metadata_shape (md_input md pad) with
+      | Some (_, mp, _) => match co_tables mp with Some [(4, [95; 104])] => true | _ => false end
+      | None => false
+      end
+  | _ => false
+  end = true.
+Proof. vm_compute. reflexivity. Qed.
